@@ -235,38 +235,51 @@ ORDER_INSENSITIVE = {"set", "frozenset", "len", "all", "any", "sorted", "min", "
 
 
 def set_typed_names(fn):
-    """names bound to set-typed expressions inside a function (syntactic): set displays/comprehensions, set()/frozenset() calls,
-    set operators on such names, .union/.intersection/.difference results, dict.keys() is NOT a set here (insertion ordered)"""
-    st = set()
+    """names bound to set-typed expressions inside a function (syntactic, line-sensitive: the type of a name at a use is that of its
+    textually latest preceding assignment): set displays/comprehensions, set()/frozenset() calls, set operators / methods on such names"""
+    assigns = {}  # name -> list of (lineno, value node or None for augmented)
+    for n in ast.walk(fn):
+        if isinstance(n, ast.Assign):
+            for t in n.targets:
+                if isinstance(t, ast.Name):
+                    assigns.setdefault(t.id, []).append((n.lineno, n.value))
+        elif isinstance(n, ast.AugAssign) and isinstance(n.target, ast.Name):
+            assigns.setdefault(n.target.id, []).append((n.lineno, ("aug", n.value)))
+    for k in assigns:
+        assigns[k].sort(key=lambda x: x[0])
 
-    def is_set(e):
+    def name_is_set(name, line, depth=0):
+        hist = [a for a in assigns.get(name, []) if a[0] <= line]
+        if not hist or depth > 6:
+            return False
+        ln, v = hist[-1]
+        if isinstance(v, tuple):  # augmented: keeps the type of the previous binding (or of the operand)
+            prev = [a for a in hist[:-1]]
+            return (name_is_set(name, prev[-1][0], depth + 1) if prev else False) or is_set(v[1], depth + 1)
+        if ln == line and isinstance(v, ast.AST) and any(isinstance(q, ast.Name) and q.id == name for q in ast.walk(v)):
+            # x = f(x): the use on the right-hand side refers to the previous binding
+            prev = hist[:-1]
+            if not prev:
+                return False
+            return is_set(prev[-1][1], depth + 1) if not isinstance(prev[-1][1], tuple) else name_is_set(name, prev[-1][0], depth + 1)
+        return is_set(v, depth + 1)
+
+    def is_set(e, depth=0):
         if isinstance(e, (ast.Set, ast.SetComp)):
             return True
         if isinstance(e, ast.Call):
             f = e.func
             if isinstance(f, ast.Name) and f.id in ("set", "frozenset"):
                 return True
-            if isinstance(f, ast.Attribute) and f.attr in ("union", "intersection", "difference", "symmetric_difference", "copy") and is_set(f.value):
+            if isinstance(f, ast.Attribute) and f.attr in ("union", "intersection", "difference", "symmetric_difference", "copy") and is_set(f.value, depth + 1):
                 return True
-        if isinstance(e, ast.Name) and e.id in st:
-            return True
-        if isinstance(e, ast.BinOp) and isinstance(e.op, (ast.BitOr, ast.BitAnd, ast.Sub, ast.BitXor)) and (is_set(e.left) or is_set(e.right)):
+        if isinstance(e, ast.Name):
+            return name_is_set(e.id, getattr(e, "lineno", 10**9), depth + 1)
+        if isinstance(e, ast.BinOp) and isinstance(e.op, (ast.BitOr, ast.BitAnd, ast.Sub, ast.BitXor)) and (is_set(e.left, depth + 1) or is_set(e.right, depth + 1)):
             return True
         return False
 
-    changed = True
-    while changed:
-        changed = False
-        for n in ast.walk(fn):
-            if isinstance(n, ast.Assign) and is_set(n.value):
-                for t in n.targets:
-                    if isinstance(t, ast.Name) and t.id not in st:
-                        st.add(t.id)
-                        changed = True
-            if isinstance(n, ast.AugAssign) and isinstance(n.target, ast.Name) and is_set(n.value) and n.target.id not in st:
-                st.add(n.target.id)
-                changed = True
-    return st, is_set
+    return set(assigns), is_set
 
 
 def rule_setiter(proved_sites=()):
@@ -331,12 +344,137 @@ def rule_setiter(proved_sites=()):
                 elif what == "for":
                     # body only adds to sets / dicts keyed by the element / raises
                     ok = _for_body_order_insensitive(n)
-                key = f"{rel(f)}:{fname}"
-                if not ok and any(site.startswith(ps) or key == ps for ps in proved_sites):
+                encl = fn if isinstance(fn, ast.FunctionDef) else None
+                if not ok and what == ".pop()" and encl is not None:
+                    ok = _singleton_guard(encl, n, par)
+                if not ok and what == "for" and encl is not None:
+                    ok = _loop_effects_only_raise(encl, n) or _accumulators_only_in_raise(encl, n, par)
+                if not ok and what in ("comprehension", "join()", "list()", "tuple()") and encl is not None:
+                    ok = _value_only_in_raise(encl, n, par)
+                key = f"{rel(f)}:{fname}:{what}"
+                if not ok and key in proved_sites:
                     ok = True
                 if not ok:
                     failing.append(site)
     return not failing, sites, failing
+
+
+def _len_test(test, name):
+    """does `test` compare len(<name>) with a constant? returns (op, const) or None"""
+    if isinstance(test, ast.Compare) and len(test.ops) == 1 and isinstance(test.left, ast.Call) and ast.unparse(test.left) == f"len({name})" and isinstance(test.comparators[0], ast.Constant):
+        return type(test.ops[0]).__name__, test.comparators[0].value
+    return None
+
+
+def _singleton_guard(fn, popcall, par):
+    """S.pop() on a set is order-independent when |S| <= 1 at that point: enclosing `if len(S) == 1`, a conditional expression
+    `S.pop() if len(S) > 0 else ..` after `if len(S) > 1: raise`, a preceding `if len(S) != 1: raise`, or `assert len(S) <= 1`"""
+    name = ast.unparse(popcall.func.value)
+    w = popcall
+    while w in par and w is not fn:
+        w = par[w]
+        if isinstance(w, ast.If):
+            t = _len_test(w.test, name)
+            if t == ("Eq", 1) and any(popcall in list(ast.walk(b)) for b in w.body):
+                return True
+    for n in ast.walk(fn):
+        if getattr(n, "lineno", 10**9) >= popcall.lineno:
+            continue
+        if isinstance(n, ast.If) and n.body and isinstance(n.body[-1], ast.Raise):
+            t = _len_test(n.test, name)
+            if t in (("NotEq", 1), ("Gt", 1), ("GtE", 2)):
+                return True
+        if isinstance(n, ast.Assert):
+            t = _len_test(n.test, name)
+            if t in (("LtE", 1), ("Eq", 1), ("Lt", 2)):
+                return True
+    return False
+
+
+def _stored_names(nodes):
+    out = set()
+    for st in nodes:
+        for n in ast.walk(st):
+            if isinstance(n, ast.Name) and isinstance(n.ctx, ast.Store):
+                out.add(n.id)
+    return out
+
+
+def _loop_effects_only_raise(fn, loop):
+    """the loop body's only escaping effect is `raise`: no return/break/yield, every name it binds is dead after the loop,
+    mutator calls only on objects first bound inside the body"""
+    from .pyvc.exec import MUTATORS
+
+    local = _stored_names(loop.body) | _stored_names([loop.target])
+    for st in loop.body:
+        for n in ast.walk(st):
+            if isinstance(n, (ast.Return, ast.Break, ast.Yield, ast.YieldFrom, ast.Global, ast.Nonlocal)):
+                return False
+            if isinstance(n, ast.Call) and isinstance(n.func, ast.Attribute) and n.func.attr in MUTATORS | {"setdefault"}:
+                r = root_name(n.func.value) if not isinstance(n.func.value, ast.Name) else n.func.value.id
+                if r not in local:
+                    return False
+            if isinstance(n, (ast.Assign, ast.AugAssign)):
+                for t in (n.targets if isinstance(n, ast.Assign) else [n.target]):
+                    if isinstance(t, (ast.Attribute, ast.Subscript)) and root_name(t) not in local:
+                        return False
+    end = loop.end_lineno
+    for n in ast.walk(fn):
+        if isinstance(n, ast.Name) and isinstance(n.ctx, ast.Load) and n.id in local and n.lineno > end:
+            # a later load is fine only if the name is re-bound after the loop before that load; be conservative
+            rebound = any(isinstance(m, ast.Name) and isinstance(m.ctx, ast.Store) and m.id == n.id and end < m.lineno <= n.lineno for m in ast.walk(fn))
+            if not rebound:
+                return False
+    return True
+
+
+def _only_in_raise_or_len(fn, name, after_line, par):
+    for n in ast.walk(fn):
+        if isinstance(n, ast.Name) and n.id == name and isinstance(n.ctx, ast.Load) and n.lineno >= after_line:
+            w, ok = n, False
+            while w in par:
+                w = par[w]
+                if isinstance(w, ast.Raise):
+                    ok = True
+                    break
+                if isinstance(w, ast.Call) and isinstance(w.func, ast.Name) and w.func.id == "len":
+                    ok = True
+                    break
+                if isinstance(w, ast.FunctionDef):
+                    break
+            if not ok:
+                return False
+    return True
+
+
+def _accumulators_only_in_raise(fn, loop, par):
+    """the loop appends to lists that are afterwards used only through len() or inside a raise statement (message / caret positions)"""
+    accs = {n.func.value.id for st in loop.body for n in ast.walk(st) if isinstance(n, ast.Call) and isinstance(n.func, ast.Attribute) and n.func.attr in ("append", "extend") and isinstance(n.func.value, ast.Name)}
+    if not accs:
+        return False
+    other = _stored_names(loop.body) - accs
+    for st in loop.body:
+        for n in ast.walk(st):
+            if isinstance(n, (ast.Return, ast.Break, ast.Yield)):
+                return False
+    for a in accs | other:
+        if not _only_in_raise_or_len(fn, a, loop.end_lineno + 1, par):
+            return False
+    return True
+
+
+def _value_only_in_raise(fn, node, par):
+    """the order-dependent value is assigned to a name that is used only inside raise statements / len(), or sits inside a raise itself"""
+    w = node
+    while w in par:
+        w = par[w]
+        if isinstance(w, ast.Raise):
+            return True
+        if isinstance(w, ast.Assign) and len(w.targets) == 1 and isinstance(w.targets[0], ast.Name):
+            return _only_in_raise_or_len(fn, w.targets[0].id, w.lineno + 1, par)
+        if isinstance(w, (ast.FunctionDef, ast.Return)):
+            return False
+    return False
 
 
 def _in_message(node, par):
@@ -447,4 +585,256 @@ def rule_pure():
                     r = n.func.value.id if isinstance(n.func.value, ast.Name) else None
                     if r not in fresh:
                         failing.append(site + " (mutator call on a non-local object)")
+    return not failing, sites, failing
+
+
+# ---------------------------------------------------------------------------------------------- R-inplace (C09)
+NUMPY_FUNCTIONAL = {"asarray", "reshape", "transpose", "broadcast_to", "arange", "concatenate", "split", "diagonal", "add", "subtract", "multiply", "true_divide", "floor_divide",
+                    "divide", "logical_and", "logical_or", "where", "maximum", "minimum", "less", "less_equal", "greater", "greater_equal", "equal", "not_equal", "logaddexp", "exp", "log",
+                    "negative", "divmod", "sum", "mean", "var", "std", "prod", "count_nonzero", "all", "any", "min", "max", "argmax", "argmin", "take", "dot", "matmul", "einsum", "roll",
+                    "flip", "sort", "argsort", "ndarray", "ndarray.__getitem__"}
+NUMPY_INPLACE = {"put", "add.at", "subtract.at"}
+INPLACE_PRODUCER_NAMES = {"call_inplace", "CallInplace", "UpdateItem", "additem", "subtractitem"}
+
+
+def rule_inplace():
+    sites, failing = [], []
+    # (1) producers of in-place IR nodes
+    allowed_refs = {("einx/_src/tracer/signature/classical/functions.py", "inplace"), ("einx/_src/tracer/signature/classical/functions.py", "setitem")}
+    for f in all_files():
+        r = rel(f)
+        if r.startswith("einx/_src/tracer/compiler/") or r in ("einx/_src/tracer/signature/python.py", "einx/_src/tracer/visualize.py") or r.startswith("einx/_src/tracer/optimizer/"):
+            continue
+        t = ast.parse(open(f).read())
+        par = parents(t)
+        for n in ast.walk(t):
+            name = n.attr if isinstance(n, ast.Attribute) else n.id if isinstance(n, ast.Name) else None
+            hit = name in INPLACE_PRODUCER_NAMES or (isinstance(n, ast.Attribute) and n.attr == "setitem" and "python" in ast.unparse(n.value))
+            if hit:
+                w, chain = n, []
+                while w in par:
+                    w = par[w]
+                    if isinstance(w, ast.FunctionDef):
+                        chain.append(w.name)
+                fn = chain[-1] if chain else "<module>"
+                site = f"{r}:{n.lineno}:{fn}:{ast.unparse(n)}"
+                sites.append(site)
+                if (r, fn) not in allowed_refs:
+                    failing.append(site + " (in-place IR node produced outside signature.classical.inplace/setitem)")
+    # (2) numpy signature: inplace wrappers only for np.put / np.add.at / np.subtract.at; no setitem/at wrapper
+    tree, p = parse("einx/_src/tracer/signature/classical/numpy.py")
+    for n in ast.walk(tree):
+        if isinstance(n, ast.Call) and ast.unparse(n.func) in ("signature.classical.inplace", "signature.classical.setitem", "signature.classical.at"):
+            arg = ast.unparse(n.args[0]) if n.args else ""
+            site = f"{rel(p)}:{n.lineno}:{ast.unparse(n)}"
+            sites.append(site)
+            if not (ast.unparse(n.func) == "signature.classical.inplace" and arg in ("np.put", "np.add.at", "np.subtract.at")):
+                failing.append(site + " (unexpected in-place primitive in the numpy signature)")
+    # inplace.inner passes its first parameter as xs
+    tree, p = parse("einx/_src/tracer/signature/classical/functions.py")
+    fn = find_func(tree, "inplace")
+    calls = [n for n in ast.walk(fn) if isinstance(n, ast.Call) and ast.unparse(n.func).endswith("call_inplace")] if fn else []
+    inner = [n for n in ast.walk(fn) if isinstance(n, ast.FunctionDef) and n is not fn] if fn else []
+    if len(calls) != 1 or not inner or not (isinstance(calls[0].args[0], ast.Name) and calls[0].args[0].id == inner[0].args.args[0].arg):
+        failing.append(f"{rel(p)}: inplace.inner does not pass its first parameter as the in-place target")
+    else:
+        sites.append(f"{rel(p)}:{calls[0].lineno}:inplace target = first parameter")
+    # (3) `out=` is never passed anywhere in the lowering or the signature layer; signature elementwise does not forward **kwargs
+    for f in all_files():
+        r = rel(f)
+        if not (r.startswith("einx/_src/adapter/") or r.startswith("einx/_src/tracer/signature/")):
+            continue
+        t = ast.parse(open(f).read())
+        for n in ast.walk(t):
+            if isinstance(n, ast.Call) and any(k.arg == "out" for k in n.keywords) and "update_at" not in r and not ast.unparse(n.func).startswith(("op(", "inner")):
+                # `out=` as an *expression-tree* argument of einx's own named-tensor ops (op(..., out=expr)) is unrelated: exclude by value type
+                kv = [k.value for k in n.keywords if k.arg == "out"][0]
+                names = {q.id for q in ast.walk(kv) if isinstance(q, ast.Name)}
+                if names and names <= {"out", "expr_out", "exprs_out", "len"} or "expr" in ast.unparse(kv):
+                    continue  # einx's own `out=` parameter carries output *expressions*, not arrays
+                failing.append(f"{r}:{n.lineno}: call passes out={ast.unparse(kv)} (writes into an existing array)")
+    fn = find_func(tree, "elementwise")
+    if fn is not None:
+        inner = [n for n in ast.walk(fn) if isinstance(n, ast.FunctionDef) and n is not fn]
+        if inner and inner[0].args.kwarg is not None:
+            failing.append(f"{rel(p)}:{inner[0].lineno}: signature elementwise forwards **kwargs (out= would become traceable)")
+    # (4) every numpy attribute used by the numpy adapter is functional, the in-place ones only as the primitive of update_at
+    tree, p = parse("einx/_src/adapter/numpy/classical_from_numpy.py")
+    cls = find_class(tree, "ops")
+    par = parents(cls)
+    for n in ast.walk(cls):
+        if isinstance(n, ast.Attribute) and root_name(n) == "np" and not isinstance(par.get(n), ast.Attribute):
+            txt = ast.unparse(n)[3:]
+            site = f"{rel(p)}:{n.lineno}:np.{txt}"
+            sites.append(site)
+            if txt in NUMPY_INPLACE:
+                c = par.get(n)
+                ok = isinstance(c, ast.Call) and ast.unparse(c.func).endswith("classical_from_numpy.update_at") and c.args and c.args[0] is n
+                a = par.get(c)
+                ok = ok and isinstance(a, ast.Assign) and ast.unparse(a.targets[0]) in ("self.set_at", "self.add_at", "self.subtract_at")
+                if not ok:
+                    failing.append(site + " (in-place numpy primitive used outside the *_at registrations)")
+            elif txt not in NUMPY_FUNCTIONAL:
+                failing.append(site + " (numpy attribute not on the functional allow-list)")
+    # module-level wrappers must not call methods that write their receiver
+    WRITERS = {"put", "fill", "itemset", "sort", "resize", "setfield", "setflags", "partition", "at"}
+    for n in ast.walk(tree):
+        if isinstance(n, ast.Call) and isinstance(n.func, ast.Attribute) and n.func.attr in WRITERS and root_name(n.func) not in ("_np", "adapter", "np", "self"):
+            failing.append(f"{rel(p)}:{n.lineno}: method call .{n.func.attr}() may write its receiver")
+        if isinstance(n, (ast.AugAssign,)) and isinstance(n.target, ast.Subscript):
+            failing.append(f"{rel(p)}:{n.lineno}: augmented item assignment")
+        if isinstance(n, ast.Assign) and any(isinstance(t, ast.Subscript) and root_name(t) not in ("kwargs",) for t in n.targets):
+            failing.append(f"{rel(p)}:{n.lineno}: item assignment {ast.unparse(n.targets[0])}")
+    # (5) target position: update_at.inner applies the primitive to its first parameter; update_at_ravelled applies op to the reshaped first tensor
+    fn = find_func(tree, "update_at")
+    inner = [n for n in ast.walk(fn) if isinstance(n, ast.FunctionDef) and n.name == "inner"][0]
+    first = inner.args.args[0].arg
+    opcalls = [n for n in ast.walk(inner) if isinstance(n, ast.Call) and isinstance(n.func, ast.Name) and n.func.id == "op"]
+    reass = [n for n in ast.walk(inner) if isinstance(n, ast.Assign) and any(isinstance(t, ast.Name) and t.id == first for tt in n.targets for t in ast.walk(tt))]
+    ok5 = len(opcalls) == 1 and isinstance(opcalls[0].args[0], ast.Name) and opcalls[0].args[0].id == first and all("to_tensor(" in ast.unparse(r.value) for r in reass)
+    sites.append(f"{rel(p)}:{inner.lineno}:update_at.inner target position")
+    if not ok5:
+        failing.append(f"{rel(p)}:{inner.lineno}: scatter primitive is not applied to (a conversion of) the first parameter")
+    tree2, p2 = parse("einx/_src/adapter/decomposednamedtensor_from_classical.py")
+    fn = find_func(tree2, "update_at_ravelled")
+    inner = [n for n in ast.walk(fn) if isinstance(n, ast.FunctionDef) and n.name == "inner"][0]
+    opcalls = [n for n in ast.walk(inner) if isinstance(n, ast.Call) and isinstance(n.func, ast.Name) and n.func.id == "op"]
+    src = {ast.unparse(n.targets[0]): ast.unparse(n.value) for n in ast.walk(inner) if isinstance(n, ast.Assign) and len(n.targets) == 1}
+    ok6 = len(opcalls) == 1 and ast.unparse(opcalls[0].args[0]) == "tensor"
+    # `tensor` must derive only from tensors[0].value via classical.reshape / op
+    tens_assigns = [ast.unparse(n.value) for n in ast.walk(inner) if isinstance(n, ast.Assign) and ast.unparse(n.targets[0]) == "tensor"]
+    ok6 = ok6 and all(v == "tensors[0].value" or v.startswith("classical.reshape(tensor,") or v.startswith("op(tensor,") for v in tens_assigns)
+    sites.append(f"{rel(p2)}:{inner.lineno}:update_at_ravelled target position")
+    if not ok6:
+        failing.append(f"{rel(p2)}:{inner.lineno}: update primitive is not applied to the (reshaped) first tensor argument")
+    return not failing, sites, failing
+
+
+# ---------------------------------------------------------------------------------------------- R-template (C17) and R-flow (C04/C03/C13)
+FORBIDDEN_WORDS = ("for ", "while ", "if ", "else", "lambda", " in ", "yield", "try:", "with ")
+
+
+def rule_template():
+    """every string template of the code generator consists of an allowed statement head with no loop/branch/comprehension keyword"""
+    tree, p = parse("einx/_src/tracer/compiler/python/__init__.py")
+    fn = find_func(tree, "compile")
+    sites, failing = [], []
+    for n in ast.walk(fn):
+        if isinstance(n, ast.FunctionDef) and n.name in ("to_code", "left_to_code", "slice_to_code") or isinstance(n, ast.Lambda):
+            body = n.body if isinstance(n, ast.Lambda) else n
+            for c in ast.walk(body):
+                lit = None
+                if isinstance(c, ast.Constant) and isinstance(c.value, str):
+                    lit = c.value
+                if lit is None:
+                    continue
+                site = f"{rel(p)}:{c.lineno}:template {lit!r}"
+                sites.append(site)
+                if any(w in lit for w in FORBIDDEN_WORDS) or any(ch in lit for ch in (";",)) or lit.strip().startswith(("for", "while", "if", "elif", "else", "try", "with", "class")):
+                    failing.append(site + " (control-flow keyword in an emitter template)")
+    # the class-level emitters (CodeObject.define / __setitem__) as well
+    for cls in [find_class(tree, "CodeObject")]:
+        for n in ast.walk(cls):
+            if isinstance(n, ast.FunctionDef) and n.name in ("to_code", "left_to_code"):
+                for c in ast.walk(n):
+                    if isinstance(c, ast.Constant) and isinstance(c.value, str):
+                        site = f"{rel(p)}:{c.lineno}:template {c.value!r}"
+                        sites.append(site)
+                        if any(w in c.value for w in FORBIDDEN_WORDS):
+                            failing.append(site)
+    # statement heads the generator can emit: def / return / import / from / assert / assignment / call / subscript-update / comment
+    heads = sorted({s.split("template ")[1][1:8] for s in sites})
+    if len(sites) < 10:
+        failing.append("fewer than 10 emitter templates found (contract unbound)")
+    return not failing, sites, failing
+
+
+def rule_flow_compile():
+    """(E6) in compile(): the string passed to exec and the string returned as code are the same local, assigned exactly twice in a row
+    (list -> joined text) and never re-bound afterwards"""
+    tree, p = parse("einx/_src/tracer/compiler/python/__init__.py")
+    fn = find_func(tree, "compile")
+    sites, failing = [], []
+    execs = [n for n in ast.walk(fn) if isinstance(n, ast.Call) and isinstance(n.func, ast.Name) and n.func.id == "exec"]
+    nested = [q for q in ast.walk(fn) if isinstance(q, (ast.FunctionDef, ast.Lambda)) and q is not fn]
+    in_nested = {id(x) for q in nested for x in ast.walk(q)}
+    rets = [n for n in ast.walk(fn) if isinstance(n, ast.Return) and isinstance(n.value, ast.Tuple) and id(n) not in in_nested]
+    execs = [e for e in execs if id(e) not in in_nested]
+    if len(execs) != 1 or len(rets) != 1:
+        return False, [], [f"{rel(p)}: expected exactly one exec() and one `return compiled, code` in compile()"]
+    ex = execs[0]
+    ret = rets[0]
+    name = ex.args[0].id if isinstance(ex.args[0], ast.Name) else None
+    rname = ret.value.elts[1].id if isinstance(ret.value.elts[1], ast.Name) else None
+    sites.append(f"{rel(p)}:{ex.lineno}:exec({name}) / return (..., {rname})")
+    if name is None or name != rname:
+        failing.append(f"{rel(p)}:{ret.lineno}: returned code `{rname}` is not the exec'ed text `{name}`")
+    assigns = [n for n in ast.walk(fn) if isinstance(n, ast.Assign) and any(isinstance(t, ast.Name) and t.id == name for t in n.targets)]
+    assigns = [a for a in assigns if not any(isinstance(q, ast.FunctionDef) and q is not fn and a in list(ast.walk(q)) for q in ast.walk(fn))]
+    if any(a.lineno > ex.lineno for a in assigns):
+        failing.append(f"{rel(p)}: `{name}` is re-bound after exec()")
+    # the compiled object comes from eval in the namespace populated by that exec
+    evals = [n for n in ast.walk(fn) if isinstance(n, ast.Call) and isinstance(n.func, ast.Name) and n.func.id == "eval"]
+    if len(evals) != 1 or ast.unparse(evals[0].args[1]) != ast.unparse(ex.args[1]):
+        failing.append(f"{rel(p)}: compiled object is not evaluated in the namespace of the exec'ed text")
+    return not failing, sites, failing
+
+
+def rule_flow_api():
+    """in api.inner (both variants): `function` and `code` come from one cached pair; the only call of `function` is after `if graph: return code`
+    and after construct_graph_with_cache returned; nothing else calls backend code before that."""
+    tree, p = parse("einx/_src/frontend/api.py")
+    sites, failing = [], []
+    for outer in ("_api_withoutbackend", "_api_withbackend"):
+        fo = find_func(tree, outer)
+        inner = [n for n in ast.walk(fo) if isinstance(n, ast.FunctionDef) and n.name == "inner"][0]
+        body = inner.body
+        idx_pair = [i for i, st in enumerate(body) if isinstance(st, ast.Assign) and ast.unparse(st.targets[0]) in ("function, code", "(function, code)") and "construct_graph_with_cache(" in ast.unparse(st.value)]
+        idx_graph = [i for i, st in enumerate(body) if isinstance(st, ast.If) and ast.unparse(st.test) == "graph" and len(st.body) == 1 and ast.unparse(st.body[0]) == "return code"]
+        idx_call = [i for i, st in enumerate(body) if any(isinstance(n, ast.Call) and isinstance(n.func, ast.Name) and n.func.id == "function" for n in ast.walk(st))]
+        site = f"{rel(p)}:{inner.lineno}:{outer}.inner"
+        sites.append(site)
+        if not (len(idx_pair) == 1 and len(idx_graph) == 1 and len(idx_call) == 1 and idx_pair[0] < idx_graph[0] < idx_call[0]):
+            failing.append(site + " (compiled function is not called strictly after `(function, code) = cache(...)` and `if graph: return code`)")
+            continue
+        callst = body[idx_call[0]]
+        calls = [n for n in ast.walk(callst) if isinstance(n, ast.Call) and isinstance(n.func, ast.Name) and n.func.id == "function"]
+        if len(calls) != 1 or ast.unparse(calls[0]) != "function(*tensor_args)":
+            failing.append(site + " (compiled function must be called exactly once with *tensor_args)")
+        # `function` / `code` are not re-bound between the pair and their uses
+        for st in body[idx_pair[0] + 1 :]:
+            for n in ast.walk(st):
+                if isinstance(n, ast.Name) and isinstance(n.ctx, ast.Store) and n.id in ("function", "code"):
+                    failing.append(site + f" (`{n.id}` re-bound after the cached pair was read)")
+        # before the pair nothing may execute user callables: tensor_args are only passed to registry.get / _to_tracer
+        for st in body[: idx_pair[0]]:
+            for n in ast.walk(st):
+                if isinstance(n, ast.Call) and any(isinstance(a, ast.Starred) and ast.unparse(a.value) == "tensor_args" for a in n.args):
+                    failing.append(site + " (tensor arguments are applied before the graph is built)")
+    return not failing, sites, failing
+
+
+def rule_descflow():
+    """in einx_from_namedtensor.op.inner the description string flows only into _parse_op and Invocation (C07, Appendix A5)"""
+    tree, p = parse("einx/_src/adapter/einx_from_namedtensor.py")
+    fo = find_func(tree, "op")
+    sites, failing = [], []
+    inner = [n for n in ast.walk(fo) if isinstance(n, ast.FunctionDef) and n.name == "inner"]
+    if not inner:
+        return False, [], [f"{rel(p)}: op.inner not found"]
+    inner = inner[0]
+    dname = inner.args.args[0].arg
+    par = parents(inner)
+    for n in ast.walk(inner):
+        if isinstance(n, ast.Name) and n.id == dname and isinstance(n.ctx, ast.Load):
+            c = par.get(n)
+            while isinstance(c, (ast.keyword, ast.Starred)):
+                c = par.get(c)
+            site = f"{rel(p)}:{n.lineno}:{ast.unparse(c)[:60]}"
+            sites.append(site)
+            okc = isinstance(c, ast.Call) and ast.unparse(c.func).split(".")[-1] in ("_parse_op", "Invocation", "isinstance")
+            if not okc:
+                failing.append(site + " (description string used outside _parse_op / Invocation)")
+    if not sites:
+        failing.append("description parameter not found (contract unbound)")
     return not failing, sites, failing
